@@ -30,7 +30,7 @@ def replay(pid, path):
 @prop("C13")
 def c13(tier, seed):
     agg = Agg("C13", tier, seed)
-    n_exc, n_fork, sh_exc = (1500, 250, 4) if tier == "quick" else (200000, 15000, 8)
+    n_exc, n_fork, sh_exc = (5000, 400, 6) if tier == "quick" else (200000, 15000, 8)
     exe_exc = build.build_bin("exc", "mon_names", COMMON + ["mon_names.cpp"])
     exe_pl = build.build_bin("plain", "mon_names", COMMON + ["mon_names.cpp"])
     shards = []
@@ -157,34 +157,34 @@ def pde_check(pid, sols, classes, tier, seed, quick=(120, 8), thorough=(4000, 16
 
 @prop("C01")
 def c01(tier, seed):
-    return pde_check("C01", HEAT, "source,exact", tier, seed, quick=(300, 16), thorough=(80000, 16))
+    return pde_check("C01", HEAT, "source,exact", tier, seed, quick=(3000, 16), thorough=(80000, 16))
 
 
 @prop("C02")
 def c02(tier, seed):
-    return pde_check("C02", EULER, "source,exact", tier, seed, quick=(200, 12), thorough=(60000, 16))
+    return pde_check("C02", EULER, "source,exact", tier, seed, quick=(2000, 12), thorough=(60000, 16))
 
 
 @prop("C03")
 def c03(tier, seed):
-    return pde_check("C03", NS, "source,exact", tier, seed, quick=(100, 8), thorough=(25000, 16),
+    return pde_check("C03", NS, "source,exact", tier, seed, quick=(800, 8), thorough=(25000, 16),
                      what="Power-law solution: all 205 parameters drawn non-zero.")
 
 
 @prop("C04")
 def c04(tier, seed):
-    return pde_check("C04", MISC, "source,exact", tier, seed, quick=(400, 16), thorough=(200000, 16))
+    return pde_check("C04", MISC, "source,exact", tier, seed, quick=(6000, 16), thorough=(200000, 16))
 
 
 @prop("C05")
 def c05(tier, seed):
-    return pde_check("C05", SA, "source,exact", tier, seed, quick=(150, 12), thorough=(60000, 16),
+    return pde_check("C05", SA, "source,exact", tier, seed, quick=(1500, 12), thorough=(60000, 16),
                      what="Free-shear solution: every temporal amplitude/frequency and v_0, v_x non-zero; two-argument forms compared with the operator at t = 0.")
 
 
 @prop("C06")
 def c06(tier, seed):
-    return pde_check("C06", CHEM, "source,exact", tier, seed, quick=(600, 16), thorough=(400000, 16),
+    return pde_check("C06", CHEM, "source,exact", tier, seed, quick=(3000, 16), thorough=(400000, 16),
                      what="Programs: 6 callbacks K_eq(T) (2 constants, 2 Arrhenius-like, 2 positive polynomials), each a call-recording variant.",
                      floors_extra=[("callback argument checked at least 1000 times", lambda a: a.count("callback_argument_checks") >= 1000),
                                    ("mass-sum invariant checked at least 500 times", lambda a: a.count("mass_sum_invariant_checks") >= 500)])
@@ -192,7 +192,7 @@ def c06(tier, seed):
 
 @prop("C07")
 def c07(tier, seed):
-    return pde_check("C07", GRAD, "grad", tier, seed, quick=(150, 8), thorough=(30000, 16),
+    return pde_check("C07", GRAD, "grad", tier, seed, quick=(1500, 8), thorough=(30000, 16),
                      what="Gradient component i compared with (a) the jet derivative of the documented field and (b) an 8th-order central difference of "
                           "masa_eval_exact_* itself; indices {0,-1,-2,-3,INT_MIN,INT_MAX,dim+1..dim+3} must give the error value at every point.",
                      floors_extra=[("out-of-range index exercised at least 1000 times", lambda a: a.count("bad_index_calls") >= 1000),
@@ -203,7 +203,7 @@ def c07(tier, seed):
 def c09(tier, seed):
     agg = Agg("C09", tier, seed)
     sols = HEAT + EULER + NS + MISC + SA + CHEM
-    cases, points = (60, 8) if tier == "quick" else (6000, 16)
+    cases, points = (500, 8) if tier == "quick" else (6000, 16)
     shards = pde_shards(pde_exe("plain"), sols, seed, cases, points, "source,exact,grad", dl=True, tag="O0:")
     if tier == "thorough":
         shards += pde_shards(pde_exe("opt"), sols, seed + 1, cases // 2, points, "source,exact,grad", dl=True, tag="O2:")
@@ -228,7 +228,7 @@ RED_SRCS = [x for x in PDE_SRCS if x != "mon_pde.cpp"] + ["mon_reduce.cpp"]
 def c20(tier, seed):
     agg = Agg("C20", tier, seed)
     exe = build.build_bin("plain", "mon_reduce", RED_SRCS, opt="-O2")
-    cases, points, chunks = (150, 8, 2) if tier == "quick" else (60000, 16, 32)
+    cases, points, chunks = (640, 8, 8) if tier == "quick" else (60000, 16, 32)
     shards = []
     for p in ("d", "l"):
         for i in range(chunks):
@@ -256,7 +256,7 @@ def c20(tier, seed):
 def c08(tier, seed):
     agg = Agg("C08", tier, seed)
     exe = build.build_bin("plain", "mon_closed", COMMON + ["mon_closed.cpp"], opt="-O2")
-    ns, nc, k = (60, 60, 2) if tier == "quick" else (30000, 15000, 16)
+    ns, nc, k = (500, 500, 4) if tier == "quick" else (30000, 15000, 16)
     shards = []
     for what, n in (("sod", ns), ("cp", nc)):
         for p in ("d", "l"):
@@ -325,7 +325,7 @@ def hist_cov(agg, extra):
 @prop("C10")
 def c10(tier, seed):
     agg = Agg("C10", tier, seed)
-    steps, ne, npl = (4000, 6, 4) if tier == "quick" else (250000, 12, 8)
+    steps, ne, npl = (6000, 10, 6) if tier == "quick" else (250000, 12, 8)
     agg.add_shards(run_shards(hist_shards(seed, "purity", steps, ne, npl)))
     cov = hist_cov(agg, "Focus: evaluator calls (45%).")
     floors = [("at least 5000 evaluator calls", agg.count("evaluations") >= 5000), ("at least 1000 repeated calls", agg.count("repeated_evaluations") >= 1000),
@@ -336,7 +336,7 @@ def c10(tier, seed):
 @prop("C11")
 def c11(tier, seed):
     agg = Agg("C11", tier, seed)
-    steps, ne, npl = (4000, 6, 4) if tier == "quick" else (250000, 12, 8)
+    steps, ne, npl = (15000, 8, 4) if tier == "quick" else (250000, 12, 8)
     shards = hist_shards(seed, "store", steps, ne, npl)
     for fl in ("exc", "plain"):
         shards.append(Shard(hist_exe(fl), ["--mode", "sweep", "--seed", str(seed), "--shard", "900"], fl + "/sweep", env=NOLEAK))
@@ -352,7 +352,7 @@ def c11(tier, seed):
 @prop("C12")
 def c12(tier, seed):
     agg = Agg("C12", tier, seed)
-    steps, ne, npl, maxlen, parts = (4000, 4, 2, 4, 10) if tier == "quick" else (100000, 10, 6, 6, 32)
+    steps, ne, npl, maxlen, parts = (12000, 6, 3, 4, 10) if tier == "quick" else (100000, 10, 6, 6, 32)
     shards = hist_shards(seed, "registry", steps, ne, npl)
     exe = hist_exe("plain")
     for i in range(parts):
@@ -377,7 +377,7 @@ def c12(tier, seed):
 @prop("C16")
 def c16(tier, seed):
     agg = Agg("C16", tier, seed)
-    steps, ne, npl = (4000, 6, 3) if tier == "quick" else (250000, 12, 6)
+    steps, ne, npl = (10000, 8, 4) if tier == "quick" else (250000, 12, 6)
     shards = hist_shards(seed, "fatal", steps, ne, npl)
     for fl in ("exc", "plain"):
         for p in ("d", "l"):
@@ -461,7 +461,7 @@ def cw_table():
 @prop("C17")
 def c17(tier, seed):
     agg = Agg("C17", tier, seed)
-    steps, n = (3000, 6) if tier == "quick" else (250000, 16)
+    steps, n = (10000, 12) if tier == "quick" else (250000, 16)
     shards = []
     for fl in ("plain", "exc"):
         exe = build.build_bin(fl, "mon_cabi", CABI_SRCS, whole_archive=True)
